@@ -47,3 +47,10 @@ add(
     "Trusts numpy and the 30-line fold oracle; for lagged models the naive funsor implementation is the reference (as the property states).",
     "DESIGN.md section 3 C10",
 )
+add(
+    "C09",
+    "property-based testing: random plated factor graphs (plus structural templates) x algorithms vs. a brute-force oracle that enumerates the fully unrolled joint",
+    "Bounded exploration over factor graphs with <=5 factors, <=4 variables and <=3 plates (arbitrary, also crossing, plate sets), any eliminate set, integer plate scales, optional real parameter and six semirings; sum_product, partial_sum_product in one and two calls (valid splits by closure), modified/dynamic variants with empty steps, plated einsum and naive_plated_einsum are compared entry-wise with the unrolled joint; pedantic graphs must raise ValueError.",
+    "Trusts the 50-line itertools/numpy brute force (capped at 1e5 joint assignments); integer scales only (plate replication); a raised ValueError/NotImplementedError is a decline.",
+    "DESIGN.md section 3 C09",
+)
